@@ -84,6 +84,11 @@ FAMILY_TOKENS = [
     "Base", "SubAdd", "SubOver", "SubReq", "SubSub", "Twin", "Twin2", "Far", "_Private", "Unrelated", "Other",
     "OtherSub", "Abs", "AbsImpl", "AbsStill", "Kw", "KwSub",
 ]  # fmt: skip
+# lineage axis: the line of descent declared class -> named class passes through classes that are themselves not
+# nameable (one / two abstract intermediates below an abstract root, an abstract intermediate below a concrete root,
+# a private intermediate), or there are two lines (diamond); MidAbs is such an intermediate named itself
+LINEAGE_TOKENS = ["AbsStillImpl", "AbsDeepImpl", "MidAbs", "MidImpl", "BelowPrivate", "Diamond"]
+FAMILY_TOKENS += LINEAGE_TOKENS
 ALL_TOKENS = FAMILY_TOKENS + M.FUNC_TOKENS + NONCLASS_TOKENS
 
 
@@ -210,6 +215,9 @@ CHANGE = {
 }
 
 
+LINEAGE_CHANGE = {"Base": ["SubAdd", "MidImpl", "BelowPrivate", "Diamond"], "Abs": ["AbsImpl", "AbsStillImpl", "AbsDeepImpl"]}
+
+
 def first_variants(tok, quick=False):
     """Init args of the first source.  Quick tier: one single-parameter representative (all parameters at once are
     in "allvalid"); thorough: every parameter on its own as well."""
@@ -242,6 +250,22 @@ def gen_change(quick):
                                 if c1 == "default" and l1 == "missing":
                                     continue
                                 yield case(t, [[c1, f1, spec_of(tok1, "path", a1, k1)], [c2, f2, spec_of(tok2, by2, a2, k2)]])
+    # lineage: class change to / from a class whose line of descent passes through a non-nameable intermediate,
+    # the new class given by its bare name (thorough: also by path, all notation pairs)
+    lin_pairs = [QUICK_PAIRS[1], QUICK_PAIRS[2], QUICK_PAIRS[4]] if quick else pairs(False)
+    for t, toks in LINEAGE_CHANGE.items():
+        for tok1, tok2 in itertools.permutations(toks, 2):
+            for l1, a1, k1 in first_variants(tok1, True):
+                if l1 not in ("base", "allvalid"):
+                    continue
+                for by2 in ("name",) if quick else ("name", "path"):
+                    for l2, a2, k2 in second_variants(tok2, quick, True):
+                        if quick and l2 == "missing":
+                            continue
+                        for (c1, f1), (c2, f2) in lin_pairs:
+                            if f2 == "S" and c2 != "dot" and (a2 or k2):
+                                continue
+                            yield case(t, [[c1, f1, spec_of(tok1, "path", a1)], [c2, f2, spec_of(tok2, by2, a2, k2)]])
 
 
 def gen_change3(quick):
@@ -287,6 +311,7 @@ INNER = [
     spec_of("CONST"), spec_of("missing_attr"), spec_of("Twin", "name"), spec_of("Far", "name", {"f": 2}),
     spec_of(None, "path", {"a": 2}), spec_of(None, "path", {"o": 2}), spec_of(None, "path", {"q": 2}),
     spec_of("Kw", "path", {}, {"z": 1}), spec_of("SubAdd", "path", {}, {"z": 1}), spec_of("SubAdd", "path", {}, {"b": True}),
+    spec_of("MidImpl", "name", {"g": True}),  # lineage: below an abstract intermediate, by bare name
 ]  # fmt: skip
 INNER_SMALL = [INNER[i] for i in (0, 1, 2, 3, 5, 6, 8, 12, 14, 20)]
 
@@ -381,6 +406,7 @@ ELEMS = [
     spec_of("Base"), spec_of("SubAdd", "path", {"b": True}), spec_of("SubAdd", "name", {"a": 2}), spec_of("SubReq"),
     spec_of("SubReq", "path", {"r": 2}), spec_of("Unrelated"), spec_of("make_sub"), spec_of("SubAdd", "path", {"q": 2}),
     spec_of("INST_BASE"), spec_of(None, "path", {"a": 2}), spec_of("Other"), spec_of("SubOver", "path", {"a": 5}),
+    spec_of("MidImpl", "name"),  # lineage: below an abstract intermediate, by bare name
 ]  # fmt: skip
 
 
